@@ -371,3 +371,35 @@ func FieldStores(fn *ssa.Function, match func(fa *ssa.FieldAddr) bool) []*ssa.St
 	})
 	return out
 }
+
+// RetVals resolves the operands of a return through the spill that go/ssa inserts for functions with deferred calls
+// (results are stored to result cells, defers run, the cells are loaded again).
+func RetVals(r *ssa.Return) []ssa.Value {
+	out := make([]ssa.Value, len(r.Results))
+	for i, v := range r.Results {
+		out[i] = v
+		u, ok := v.(*ssa.UnOp)
+		if !ok || u.Op != token.MUL {
+			continue
+		}
+		a, ok := u.X.(*ssa.Alloc)
+		if !ok {
+			continue
+		}
+		// last store to the cell in the returning block before the load
+		b := r.Block()
+		var last ssa.Value
+		for _, in := range b.Instrs {
+			if in == ssa.Instruction(u) {
+				break
+			}
+			if st, ok := in.(*ssa.Store); ok && st.Addr == a {
+				last = st.Val
+			}
+		}
+		if last != nil {
+			out[i] = last
+		}
+	}
+	return out
+}
